@@ -33,21 +33,36 @@
 (***************************************************************************)
 EXTENDS Integers, Sequences, FiniteSets, TLC
 
-CONSTANTS Closers,   \* callers of Close
-          Conns,     \* connections (already in a session)
-          Variant    \* "repaired" | "pinned" | "sched"
+CONSTANTS
+    \* @type: Set(Str);
+    Closers,   \* callers of Close
+    \* @type: Set(Str);
+    Conns,     \* connections (already in a session)
+    \* @type: Str;
+    Variant    \* "repaired" | "pinned" | "sched"
 
 VARIABLES
+    \* @type: Bool;
     closing,      \* the closing flag
+    \* @type: Int;
     chanClosed,   \* number of close(closer) executions (2 = panic)
+    \* @type: Str;
     mu,           \* holder of the server mutex, or "free"
+    \* @type: Int;
     wg,           \* WaitGroup counter
+    \* @type: Bool;
     lclosed,      \* the listener has been closed
+    \* @type: Bool;
     cgDone,       \* the closer goroutine has finished
+    \* @type: Str;
     served,       \* "running" | "nil": Serve has returned nil
+    \* @type: Str -> Str;
     kpc,          \* closer -> where its goroutine is parked
+    \* @type: Str -> Str;
     cpc,          \* connection -> where its goroutine is parked
+    \* @type: Str -> Bool;
     saw,          \* actor -> value of the closing flag it read
+    \* @type: Bool;
     returned      \* some Close call has returned
 
 svars == <<closing, chanClosed, mu, wg, lclosed, cgDone, served, kpc, cpc, saw, returned>>
